@@ -142,7 +142,9 @@ func runCM(id, rest string, obs *vh.LineWriter, st *vh.Stats) {
 	fs := hooks.NewMemFS()
 
 	var serr error
-	if p := vh.Catch(func() { serr = tools.VerifCheckImportSettings(config.NodeHostConfig{RaftAddress: raddr}, members, self) }); p != "" {
+	if p := vh.Catch(func() {
+		serr = tools.VerifCheckImportSettings(config.NodeHostConfig{RaftAddress: raddr}, members, self)
+	}); p != "" {
 		obs.Printf("%s settings PANIC\n", id)
 	} else if serr == nil {
 		obs.Printf("%s settings OK\n", id)
@@ -277,7 +279,9 @@ func runImg(id, rest string, obs *vh.LineWriter, st *vh.Stats) {
 	writeFile(fs, "/x/s.gbsnap", append(append([]byte{}, cachedHeader...), body...))
 	var ok bool
 	var err error
-	p := vh.Catch(func() { ok, err = tools.VerifIsCompleteSnapshotImage("/x/s.gbsnap", pb.Snapshot{Checksum: recorded}, fs) })
+	p := vh.Catch(func() {
+		ok, err = tools.VerifIsCompleteSnapshotImage("/x/s.gbsnap", pb.Snapshot{Checksum: recorded}, fs)
+	})
 	tag := "INCOMPLETE"
 	switch {
 	case p != "":
